@@ -10,7 +10,7 @@ func init() {
 	registry.Register(&registry.Check{
 		ID:    "C01",
 		Level: "model_checking",
-		Rule:  "explicit-state DFS over all interleavings of votes (right nonce with competing variants A/B, same nonce again, skipped nonce) by 3 bonded + 1 approved oracle, executeClaim calls, membership changes (bond, add-delegate, governance removal, re-approval, unbond) and slashing blocks; monitor: last observed nonce advances by exactly one, one observed attestation / one contract_event per nonce, per-oracle contiguity, parked claim executes at most once, receiver balance = sum of executed observed variants; a state is non-trivial if at least one event was observed by quorum",
+		Rule:  "explicit-state DFS over all interleavings of votes (right nonce with competing variants A/B, same nonce again, skipped nonce) by 3 bonded + 1 approved oracle, executeClaim calls, membership changes (bond, add-delegate, governance removal, re-approval, unbond) and slashing blocks; monitor: last observed nonce advances by exactly one, one observed attestation / one contract_event per nonce, per-oracle contiguity, parked claim executes at most once, receiver balance = sum of executed observed variants; an accepted vote stays in its attestation until the event is observed; one job starts after 100 executed events (attestation pruning active); a state is non-trivial if at least one event was observed by quorum",
 		Assumptions: []string{
 			"claims are SendToFx claims of the FX token (variants differ in amount); other claim types share Attest/TryAttestation",
 			"event nonces bounded by max_nonce per job; oracle set of 3 equal stakes (2-of-3 quorum) plus one late joiner",
@@ -30,13 +30,17 @@ func init() {
 					{Name: "eth-max4", Spec: b, Depth: 8, ShardDepth: 2},
 					{Name: "bsc-blocks", Spec: c, Depth: 7, ShardDepth: 2},
 					{Name: "tron", Spec: t, Depth: 7, ShardDepth: 2},
+					{Name: "eth-after-100-events", Spec: func() *vote.Spec { l := base("eth"); l.Prefill, l.MaxNonce = 100, 104; return l }(), Depth: 7, ShardDepth: 2},
 					{Name: "eth-rebond-life-cycle", Spec: &vote.Spec{Prop: "C01", Chain: "eth", Stakes: []int64{10000, 10000, 10000, 10000}, Variants: []string{"A"}, MaxNonce: 4, Rebond: true}, Depth: 11, ShardDepth: 2},
 					{Name: "execute-claim-reentrancy", Custom: reentrancy, Shards: 4},
 				}
 			}
 			q := base("eth")
+			long := base("eth")
+			long.Prefill, long.MaxNonce = 100, 104
 			return []registry.Job{
 				{Name: "eth", Spec: q, Depth: 6, ShardDepth: 2},
+				{Name: "eth-after-100-events", Spec: long, Depth: 5, ShardDepth: 2},
 				{Name: "eth-rebond-life-cycle", Spec: &vote.Spec{Prop: "C01", Chain: "eth", Stakes: []int64{10000, 10000, 10000, 10000}, Variants: []string{"A"}, MaxNonce: 3, Rebond: true}, Depth: 9, ShardDepth: 2},
 				{Name: "execute-claim-reentrancy", Custom: reentrancy, Shards: 4},
 			}
